@@ -86,6 +86,9 @@ def model_check(ctx, prop):
         # install + 2 refreshes + 2 reverts on 3 revisions: NotBlocked marks must accumulate across consecutive reverts
         cfgs.append("SnapSeq_mc_c13chain.cfg")
     if prop == "C12":
+        # kernel on classic (retain 2), boot uses rev 1: install; refresh 2; refresh 3; refresh 4 puts an in-use
+        # revision FIRST in a garbage-collection range that has a further candidate after it
+        cfgs.append("SnapSeq_mc_c12gc.cfg")
         cfgs.append(ctx.pick("SnapSeq_mc_kernel_quick.cfg", "SnapSeq_mc_kernel.cfg"))     # boot.InUse answers
     total = {"states": 0, "transitions": 0, "coverage": {}, "constants": {}, "wall": 0.0, "depth": 0}
     for base in cfgs:
@@ -229,7 +232,7 @@ def replay(ctx, tb, histories, what):
 DIRECTED_FOR = {
     "C10": ("d-nb-k1", "d-nb-k9", "d-nb-store", "d-attrs-", "d-order-n3-", "d-order-n4-t1", "d-missingrevs-"),
     "C11": ("d-remove", "d-partial-discard-", "d-attrs-", "d-kernel-1", "d-nb-store", "d-missingrevs-"),
-    "C12": ("d-retain-", "d-kernel-", "d-missingrevs-", "d-blocked", "d-order-n4-t1"),
+    "C12": ("d-retain-", "d-kernel-", "d-missingrevs-", "d-blocked"),
     "C13": ("d-reverts-", "d-blocked", "d-nb-store", "d-nb-k1", "d-order-n3-t1", "d-kernel-1", "d-remove-current-inactive"),
 }
 
@@ -339,6 +342,16 @@ def directed_histories():
         op("setretain", val=2), op("install", k, rev=1), op("refresh", k, rev=2), op("setboot", k, rev=1, val=2),
         op("refresh", k, rev=3), op("refresh", k, rev=4, fk=18), op("refresh", k, rev=4), op("refresh", k, rev=1),
         op("setboot", k, rev=1, val=0), op("refresh", k, rev=5)]})
+    # garbage collection range with an in-use revision FIRST / in the MIDDLE / LAST / two in use, and further
+    # candidates after it (the in-use one must be skipped, not end the collection); retain lowered between refreshes
+    hs.append({"id": "d-kernel-gc-first", "onClassic": False, "ops": [
+        op("setretain", val=2), op("install", k, rev=1), op("refresh", k, rev=2), op("setboot", k, rev=1, val=0),
+        op("refresh", k, rev=3), op("refresh", k, rev=4), op("refresh", k, rev=5)]})
+    for name, boot in (("middle", (2, 0)), ("last", (3, 0)), ("two", (1, 3)), ("first4", (1, 0))):
+        hs.append({"id": "d-kernel-gc-" + name, "onClassic": name == "two", "ops": [
+            op("setretain", val=5), op("install", k, rev=1), op("refresh", k, rev=2), op("refresh", k, rev=3),
+            op("refresh", k, rev=4), op("setboot", k, rev=boot[0], val=boot[1]), op("setretain", val=2, str=True),
+            op("refresh", k, rev=5, fk=21), op("refresh", k, rev=5)]})
     # in-use revision after current (left over from a revert): statement clauses conflict, code discards it
     hs.append({"id": "d-kernel-aftercur", "onClassic": False, "ops": [
         op("install", k, rev=1), op("refresh", k, rev=2), op("refresh", k, rev=3), op("revert", k, rev=2),
@@ -630,7 +643,11 @@ def direct_check(prop, log):
                     tainted.discard((ch["case"], n))
         if t == "env" and ch["ev"] == "Candidates" and prop == "C13":
             raw, r = ch["raw"], post["snaps"][snap]
-            if r["seq"] and raw["asked"]:
+            # refresh-all only considers snaps that are active and neither in devmode nor in trymode
+            # (collectCurrentSnaps / addCand in storehelpers.go: "no auto-refresh for devmode", inactive and try
+            # snaps are skipped); for the others nothing is demanded
+            eligible = r["active"] and not r["dev"] and not r["try"]
+            if r["seq"] and raw["asked"] and eligible:
                 if sorted(raw["storeBlock"] or []) != sorted(r["block"]):
                     report("C13:refresh-all does not tell the store the blocked revisions", ch["hist"],
                            "store got block=%s, Block()=%s" % (raw["storeBlock"], r["block"]), ch)
